@@ -7,11 +7,12 @@ BOUNDS = {'quick': '4 dynamic types per argument (3 listed + 1 unlisted), 2 disp
 NOT_COVERED = ['functor_dispatcher over basic_dispatcher and basic_fast_dispatcher, registration/erasure histories, lazy class indices: not built (std::map rebalancing and type_index hashing are out-of-line libstdc++ code; the nested std::vector<std::function> '
                'tables of the fast dispatcher gave no verdict within 300 s per registration history) - a defect confined to those classes is NOT detected', 'three dispatched arguments; virtual inheritance']
 ASSUMPTIONS = ['__dynamic_cast is modelled (rt/cxxabi_model.c) for public non-virtual inheritance graphs of depth <= 3, reading dynamic type and offset-to-top from the vtable']
-INERT = ['_ZNSt13runtime_errorC[12]EPKc', '_ZNSt13runtime_errorD[012]Ev']
+INERT = ['_ZNSt13runtime_errorC[12]EPKc', '_ZNSt13runtime_errorD[012]Ev', '_ZNSt17bad_function_callD[012]Ev']
 
 
 def units(tier):
-    return [Unit('dispatch', 'wrappers.cpp', ['harness.c'], inert=INERT, rt=('verif_rt.c', 'cxxabi_model.c', 'libstdcxx_models.c'), tv=[('h_static', []), ('h_acyclic', []), ('h_cyclic', []), ('h_fast', [])], tv_iters=5000)]
+    return [Unit('dispatch', 'wrappers.cpp', ['harness.c'], inert=INERT, rt=('verif_rt.c', 'cxxabi_model.c', 'libstdcxx_models.c'), tv=[('h_static', []), ('h_acyclic', []), ('h_cyclic', []), ('h_fast', [])], tv_iters=5000),
+            Unit('tab', 'wrappers_tab.cpp', ['harness_tab.c'], inert=INERT, rt=('verif_rt.c', 'cxxabi_model.c', 'libstdcxx_models.c', 'rbtree_model.c'), tv=[('h_fast2', []), ('h_fast3', []), ('h_functor', []), ('h_map', [])], tv_iters=5000)]
 
 
 def obligations(tier):
@@ -19,5 +20,9 @@ def obligations(tier):
            Ob('cyclic_visitor', 'dispatch', 'h_cyclic', unwind=6, bound='all visitable types')]
     # functor_dispatcher over basic_fast_dispatcher (h_fast / w_fast, kept for native translation validation only): one registration history with symbolic
     # dynamic types gave no verdict within 300 s (nested std::vector<std::function> reallocation paths), so it is not an obligation and not claimed
+    obs += [Ob('fast2', 'tab', 'h_fast2', unwind=6, bound='3 registrations over 9 cells, all dynamic type pairs', min_witnesses=3, timeout=600),
+            Ob('fast3', 'tab', 'h_fast3', unwind=6, bound='2 registrations over 6 triples, all dynamic type triples', min_witnesses=2, timeout=600)]
+    obs += [Ob('functor', 'tab', 'h_functor', unwind=10, mem_unwind=40, bound='3 insert/erase steps over 9 cells, both casting policies, all dynamic type pairs', min_witnesses=3, timeout=600),
+            Ob('map', 'tab', 'h_map', unwind=6, bound='3 insert/erase steps over 9 cells, all dynamic type pairs', min_witnesses=3, timeout=600)]
     if tier == 'thorough': obs += [Ob(o.name + '@cadical', o.unit, o.fn, unwind=6, backend='cadical') for o in list(obs)]
     return obs
